@@ -201,6 +201,17 @@ func c09SpecialSeq(g *gen.G, which int) *c09Seq {
 		c3 := mk("expr", "c09-guarded-by-swapped-in-import", y, imp(' ', "example.com/new/swaplog"), "swapMark(«y»)", "swapNew(«y»)")
 		return &c09Seq{changes: []*gen.Change{c1, c2, c3}, roles: []string{"swaps-import", "guarded-by-removed-import", "guarded-by-swapped-in-import"}, base: c1,
 			extra: []string{"swapMark(%s)"}, imports: "import (\n\t\"example.com/old/swaplog\"\n\t\"os\"\n)\n\nvar _ = os.Args\n"}
+	case 11:
+		// a later change of the same patch file uses, as an ordinary name, a name that an earlier change declares as a
+		// metavariable: on its own it rewrites the code that has that very name and nothing else, and so it does in
+		// the combined run
+		nm := []string{"x", "err", "v"}[g.R.Intn(3)]
+		mv := []gen.MetaVar{{Name: nm, Kind: "expression"}}
+		c1 := mk("expr", "c09-declares-a-name", mv, nil, "declUse(«"+nm+"»)", "declUsed(«"+nm+"»)")
+		c2 := mk("expr", "c09-uses-the-name-as-plain-code", nil, nil, "plainUse("+nm+")", "plainUsed("+nm+", 1)")
+		c3 := mk("expr", "c09-writes-the-name-as-plain-code", nil, nil, "plainSet()", "plainSetTo("+nm+")")
+		return &c09Seq{changes: []*gen.Change{c1, c2, c3}, roles: []string{"declares-a-name", "uses-the-name-as-plain-code", "writes-the-name-as-plain-code"}, base: c1,
+			extra: []string{"plainUse(" + nm + "%.0s)", "plainUse(other%.0s)", "plainUse(%s)", "plainSet(%.0s)"}}
 	case 10:
 		// an earlier change reproduces, through a metavariable, a local variable that is named like an imported package;
 		// a later change removes that import: the copy of the local is still a local, not a reference to the package
@@ -470,6 +481,8 @@ func runC09(ctx *core.Ctx, idx int) *core.Result {
 		seq = c09SpecialSeq(g, 9)
 	case 16:
 		seq = c09SpecialSeq(g, 10)
+	case 22:
+		seq = c09SpecialSeq(g, 11)
 	}
 	// files
 	nf := 3
